@@ -332,15 +332,57 @@ impl Property for C11 {
             fail(&mut out, "twin|resume", format!("stepping {} times and then execute() differs from execute(): {} / {} ; {}", c.resume_after, ra.short(), rc.short(), a_final.diff(&c_final)));
             return out;
         }
+        // ---- machine E: the limit is set only after r steps — it still counts from the start of the run
+        if let Some(n) = limit {
+            prog::reset_hooks(script_for(c));
+            let mut e = build(c, Some(HARD_LIMIT)).unwrap();
+            let mut early: Option<Api<()>> = None;
+            let mut done = 0u64;
+            for _ in 0..c.resume_after {
+                match step(&mut e) {
+                    Api::Ok(true) => done += 1,
+                    Api::Ok(false) => {
+                        early = Some(Api::Ok(()));
+                        break;
+                    }
+                    Api::Err(x) => {
+                        early = Some(Api::Err(x));
+                        break;
+                    }
+                    Api::Panic(p) => {
+                        early = Some(Api::Panic(p));
+                        break;
+                    }
+                }
+            }
+            if early.is_none() && n >= done {
+                e.set_max_instructions(n);
+                let re = execute(&mut e);
+                let e_final = snap(&e);
+                prog::take_events();
+                let same = match (&ra, &re) {
+                    (Api::Ok(_), Api::Ok(_)) => true,
+                    (Api::Err(x), Api::Err(y)) => x == y,
+                    _ => false,
+                };
+                out = out.class("limit:set-late");
+                if !same || e_final != a_final {
+                    fail(&mut out, "limit|set-after-some-steps", format!("setting the limit {} after {} steps and running on differs from setting it before the run: {} / {} ; {}", n, done, ra.short(), re.short(), a_final.diff(&e_final)));
+                    return out;
+                }
+            } else {
+                prog::take_events();
+            }
+        }
         out.nontrivial = k >= 3 && cause != "hard-limit";
         out
     }
 
     fn rule(&self) -> String {
-        "cases: slot-grid programs of 1–30 instructions (register ALU/mov/inc/dec/cmp/test, Jcc/JMP rel8|rel32 forward and backward, JMP/CALL through a register, JRCXZ, CALL/RET, PUSH/POP on an initialised stack), ending by falling off the end, a top-level RET, a jump to the end address, a jump past it, an error, or a stop hook; instruction limits {none, 0, k−n, k−1, k, k+1} around the dynamic length k; a resume point; oracle: a checked stepping run (count +1, RIP = decoded next-ip for non-transfers, finish ⇔ code end ∨ top-level RET ∨ stop), twin runs execute() ≡ step* ≡ step^r;execute (result, full state snapshot, hook events), and 'a further step fails and changes nothing' after finish / limit; non-trivial = ≥3 dynamic instructions and not cut by the harness's hard limit; distinct by hash(case)".into()
+        "cases: slot-grid programs of 1–30 instructions (register ALU/mov/inc/dec/cmp/test, Jcc/JMP rel8|rel32 forward and backward, JMP/CALL through a register, JRCXZ, CALL/RET, PUSH/POP on an initialised stack), ending by falling off the end, a top-level RET, a jump to the end address, a jump past it, an error, or a stop hook; instruction limits {none, 0, k−n, k−1, k, k+1} around the dynamic length k; a resume point; the limit set before the run or after r steps; oracle: a checked stepping run (count +1, RIP = decoded next-ip for non-transfers, finish ⇔ code end ∨ top-level RET ∨ stop), twin runs execute() ≡ step* ≡ step^r;execute (result, full state snapshot, hook events), and 'a further step fails and changes nothing' after finish / limit; non-trivial = ≥3 dynamic instructions and not cut by the harness's hard limit; distinct by hash(case)".into()
     }
     fn required_classes(&self, _tier: Tier) -> Vec<String> {
-        ["finish:reached-code-end", "finish:top-level-ret", "finish:stop-hook", "finish:error", "limit:none", "limit:0", "limit:<k", "limit:=k", "limit:>k"].iter().map(|s| s.to_string()).collect()
+        ["finish:reached-code-end", "finish:top-level-ret", "finish:stop-hook", "finish:error", "limit:none", "limit:0", "limit:<k", "limit:=k", "limit:>k", "limit:set-late"].iter().map(|s| s.to_string()).collect()
     }
     fn assumptions(&self) -> Vec<String> {
         vec!["every run carries a hard limit of 400 instructions so that generated loops terminate; runs cut by it are only twin-compared".into(), "whether the current instruction still executes after a before-hook stop is left open; the stepping reference observes what the code does and the twins must agree".into()]
